@@ -171,6 +171,7 @@ package bcl
 //@   requires byte_operand_pending: p.hadError || g.pend == FB()
 //@   requires [C04,C10] bind_byte_valid: p.hadError || g.lastop != opBIND || validBindByte(b)
 //@   ensures appended: len(p.prog.code) == old(len(p.prog.code)) + 1 && p.prog.code[len(p.prog.code)-1] == b
+//@   assert [C08] the_byte_records_the_position_of_the_previous_token: at write#1: $pos == p.prev.pos
 //@   ensures code_prefix: forall i int :: 0 <= i && i < old(len(p.prog.code)) ==> p.prog.code[i] == old(p.prog.code[i])
 //@   modifies Prog.code, Prog.positions
 //@   ghost pend = F0()
@@ -344,7 +345,7 @@ package bcl
 //@   assert [C02,C03,C17] a_name_is_rejected_here_only_as_an_undefined_variable_at_top_level: at error: $slot < 0 && p.scope.depth == 0
 //@   requires [C17] called_on_the_identifier_token: p.hadError || p.prev.typ != tSEMICOLON
 //@   ensures [C17] no_terminator_inside_an_expression: p.hadError || p.prev.typ != tSEMICOLON
-//@   assert [C17,C01] assignment_is_right_associative: at expr.parsePrecedence#1: $prec == precAssign
+//@   assert [C17,C01,C02] assignment_is_right_associative: at parsePrecedence#1: $prec == precAssign
 //@   requires at_boundary: p.hadError || g.pend == F0()
 //@   ensures one_value: p.hadError || (g.sd == old(g.sd) + 1 && g.pend == F0() && g.njopen == old(g.njopen) && g.bd == old(g.bd) && g.uninit == old(g.uninit))
 //@   ensures jframe: forall o int :: o < old(len(p.prog.code)) ==> select(g.jopen, o) == old(select(g.jopen, o)) && select(g.jd, o) == old(select(g.jd, o))
